@@ -2,6 +2,7 @@
 files, scripted interactive setup, batch-fit acceptance and the statistics file."""
 import builtins
 import json
+import random
 import os
 import pathlib
 import shutil
@@ -113,6 +114,10 @@ def gen_history(rng, models):
     return ops
 
 
+class SkipHistory(Exception):
+    pass
+
+
 def run_history(ops, path, ctx=None):
     """execute on the real Profile; returns list of canonical outputs and the final file"""
     from nanite.cli import profile
@@ -135,6 +140,28 @@ def run_history(ops, path, ctx=None):
             expect.append("unit")
             lines.append({"op": "fitparams",
                           "md": [[p, to_jv(md[p].value), bool(md[p].vary)] for p in md]})
+        if op[0] == "setbad":
+            # a write the profile cannot store (not serialisable): rejected - and nothing stored so far is lost (no
+            # line for the Lean store model: its state is unchanged by a rejected write, which is what is checked
+            # by the reads that follow and by the final file comparison)
+            bad_v = {"ndarray": np.array([1e-6, 2e-6]), "set": {"compute_tip_position"}, "complex": 3 + 4j}[op[2]]
+            try:
+                pf[op[1]] = bad_v
+                raise SkipHistory()
+            except SkipHistory:
+                raise
+            except BaseException:  # noqa
+                pass
+            try:
+                json.loads(pathlib.Path(path).read_text())
+            except BaseException as e:  # noqa
+                if ctx is not None:
+                    ctx.violation("rejected-write-corrupts-profile",
+                                  f"after the rejected write profile[{op[1]!r}] = <{op[2]}> the profile file is no longer "
+                                  f"readable ({type(e).__name__}): every value stored before is lost",
+                                  {"history": [list(map(str, o)) for o in ops]})
+                raise SkipHistory()
+            continue
         try:
             if op[0] == "new":
                 pf = profile.Profile(path=path)
@@ -678,8 +705,21 @@ def run(ctx):
         all_lines, all_expect, where = [], [], []
         for i in range(nh):
             ops = gen_history(ctx.rng, models)
+            # rejected writes in between (own random stream, so that the main stream of histories is not shifted)
+            g_ = random.Random(ctx.seed * 1009 + i)
+            if g_.random() < 0.25:
+                ops.insert(g_.randint(1, len(ops)), ("setbad", g_.choice(["range_x", "preprocessing", "fit param E value",
+                                                                          "weight_cp"]),
+                                                     g_.choice(["ndarray", "set", "complex"])))
             path = tdir / f"p{i}.cfg"
-            lines, expect = run_history(ops, path, ctx)
+            try:
+                lines, expect = run_history(ops, path, ctx)
+            except SkipHistory:
+                ctx.dist["history=abandoned-after-unmodelled-write"] = \
+                    ctx.dist.get("history=abandoned-after-unmodelled-write", 0) + 1
+                if path.exists():
+                    path.unlink()
+                continue
             fresh_read_oracle(ctx, ops, path)
             all_lines += lines
             all_expect += expect
